@@ -415,9 +415,13 @@ reg("chebyu_nz", "chebyu", lambda c, n, x: c.chebyu(n, M(c, x)), q_chebyu,
     lambda rng, p: (lambda n: [n, near_zero_cheb(rng, p, n, 2)])(rng.randint(2, 40)), w=0.5, regime=NZ, exact=True)
 reg("legendre_nz", "legendre", lambda c, n, x: c.legendre(n, M(c, x)), q_legendre,
     lambda rng, p: (lambda n: [n, near_zero_leg(rng, p, n)])(rng.randint(2, 40)), w=0.7, regime=NZ, exact=True)
+# legendre's own small-argument code for odd n: extra precision for 2^(-2(p+10)-10) <= |x| < 2^-5, `return x` below that
 reg("legendre_tiny", "legendre", lambda c, n, x: c.legendre(n, M(c, x)), q_legendre,
-    lambda rng, p: [2 * rng.randint(0, 20) + 1, Fraction(rng.choice([-1, 1]) * rng.randint(1, 2 ** 10), 2 ** rng.choice([20, 60, p, 3 * p + 30]))],
-    w=0.5, regime="polynomial-tiny-argument", exact=True)
+    lambda rng, p: [2 * rng.randint(0, 20) + 1, Fraction(rng.choice([-1, 1]) * rng.randint(1, 2 ** 10), 2 ** rng.randint(12, 2 * p + 30))],
+    w=0.6, regime="polynomial-tiny-argument", exact=True)
+reg("legendre_tiny_shortcut", "legendre", lambda c, n, x: c.legendre(n, M(c, x)), q_legendre,
+    lambda rng, p: [2 * rng.randint(0, 20) + 1, Fraction(rng.choice([-1, 1]) * rng.randint(1, 2 ** 10), 2 ** rng.randint(2 * p + 41, 2 * p + 240))],
+    w=0.4, regime="polynomial-tiny-argument-shortcut", exact=True)
 # degenerate parameters
 reg("laguerre_negint", "laguerre", lambda c, n, a, x: c.laguerre(n, a, M(c, x)), q_laguerre,
     lambda rng, p: [g_deg(rng, 40), -rng.randint(1, 12), g_x(rng, p, -4, 20, special=(1,))], w=0.7, regime="polynomial-negint-parameter",
